@@ -31,12 +31,27 @@ def describe(case):
                           bare_start=s.get('bare_start', False), parens=s.get('parens', False),
                           break_ops=s.get('break_ops', False))
     render.LAM_DEFAULTS = bool(cfg.get('lam_defaults'))
+    render.SEP_POSITIONAL = bool(cfg.get('sep_positional'))
     try:
         return render.grammar(case['g'], st, bm=cfg.get('bytes', False), name=cfg.get('name'),
                               ign_first=cfg.get('ign_first', False), ign_names=cfg.get('ign_names'),
                               order=cfg.get('order'))
     finally:
         render.LAM_DEFAULTS = False
+        render.SEP_POSITIONAL = False
+
+
+def with_cfg_variant(cases, key):
+    """The cases again with cfg[key] = True - only those whose description changes."""
+    out = []
+    for c in cases:
+        if 'g' not in c:
+            continue
+        c2 = dict(c)
+        c2['cfg'] = dict(c.get('cfg') or {}, **{key: True})
+        if describe(c2) != describe(c):
+            out.append(c2)
+    return out
 
 
 def with_lambda_defaults(cases):
